@@ -53,6 +53,10 @@ impl<TC: ModelCfg> Server<TC> {
     pub async fn member(&self, nl: NodeLabel) -> akd::MembershipProof {
         self.azks.get_membership_proof::<TC, _>(&self.mgr, nl).await.unwrap()
     }
+    /// forged existence of ANY label: no sibling layers, carrying the root node's own value
+    pub fn forged_member_root(&self, nl: NodeLabel) -> akd::MembershipProof {
+        akd::MembershipProof { label: nl, hash_val: akd::AzksValue(self.tree.root_value), sibling_proofs: vec![] }
+    }
     pub async fn non_member(&self, nl: NodeLabel) -> NonMembershipProof {
         self.azks.get_non_membership_proof::<TC, _>(&self.mgr, nl).await.unwrap()
     }
@@ -322,9 +326,9 @@ impl<'r, TC: ModelCfg> HistVisitor<TC> for V6<'r> {
 pub fn run(args: &Args) -> i32 {
     let rep = Report::new("C06", &args.tier, "exploration");
     let plan = if args.quick() {
-        Plan { base_depth: 2, ext_depth: 0, chains: vec![(9, 1)], cache: CacheCfg::None, par: AzksParallelismConfig::disabled() }
+        Plan { base_depth: 2, ext_depth: 0, chains: vec![(9, 1)], shape_depth: 1, cache: CacheCfg::None, par: AzksParallelismConfig::disabled() }
     } else {
-        Plan { base_depth: 3, ext_depth: 2, chains: vec![(17, 1), (9, 2)], cache: CacheCfg::None, par: AzksParallelismConfig::disabled() }
+        Plan { base_depth: 3, ext_depth: 2, chains: vec![(17, 1), (9, 2)], shape_depth: 2, cache: CacheCfg::None, par: AzksParallelismConfig::disabled() }
     };
     let v = V6 { rep: &rep };
     run_plan(args.threads, &plan, &v);
